@@ -151,4 +151,9 @@ theorem csvRecord_eq_renderRow (cells : List Cell) (h : ∀ c ∈ cells, c.head?
     csvRecord cells = renderRow cells := by
   simp only [csvRecord, renderRow, joinRecord_eq_joinCells cells h]
 
+example := csvRecord_eq_renderRow [['a', ' '], ['p', ',', '"'], [], ['l', '\n']] (by decide)
+
+example : parse .exetera ([[[' ', 'a'], ['i', '\r', 'j']], [[]], [[' '], ['\r', '\n']]].flatMap csvRecord)
+    = [[[' ', 'a'], ['i', '\r', 'j']], [[]], [[' '], ['\r', '\n']]] := parse_records _ _
+
 end Exetera.Export
